@@ -307,7 +307,19 @@ pub fn check_packet(
     // the password never appears on the wire (C08 / C07)
     if !matches!(cred, CredView::None) && cfg.password.len() >= 6 {
         let pw = cfg.password.as_bytes();
-        if bytes.windows(pw.len()).any(|w| w == pw) {
+        // an application attribute may itself contain the same text: that is the application's doing
+        let app_bytes = ref_encode(
+            &RMsg {
+                method: 0,
+                class: 0,
+                tid: [0; 12],
+                attrs: app.iter().filter(|a| crate::conv::to_lib(a).is_ok()).cloned().collect(),
+            },
+            &mut Noise::zero(),
+        )
+        .bytes;
+        let in_app = app_bytes.windows(pw.len()).any(|w| w == pw) || cfg.user.contains(cfg.password.as_str());
+        if !in_app && bytes.windows(pw.len()).any(|w| w == pw) {
             out.push(finding(&["C08", "C07"], "the password appears in an emitted packet".into()));
         }
     }
